@@ -1,4 +1,5 @@
 pub mod allocmc;
+pub mod c01;
 pub mod c12;
 pub mod c13;
 pub mod c14;
@@ -16,6 +17,7 @@ pub mod c29;
 use crate::common::{Ctx, Report};
 pub fn dispatch(p: &str, ctx: &Ctx) -> Option<Report> {
     Some(match p {
+        "C01" => c01::run(ctx),
         "C12" => c12::run(ctx),
         "C13" => c13::run(ctx),
         "C14" => c14::run(ctx),
